@@ -97,6 +97,61 @@ def run(prog):
     return obs, floors, {"walkers": [w[0] for w in WALKERS]}
 
 
+
+def omit_keeps_max(body, n):
+    """does the Omit(n) arm set its counter to max(counter, n + 1)?  Accepted spellings: `c = c.max(X)`, `c = X.max(c)`,
+    `c = max(c, X)`, `if X > c { c = X }` (also `c < X`, `>=`, `<=`), where X is `n + Saturating(1)` written inline or bound to
+    a local first; the counter is whichever local is assigned"""
+    lets = {}
+    for l in H.nodes(body, "let"):
+        if H.tag(l[1]) == "bind" and l[2] is not None:
+            lets[l[1][1]] = l[2]
+
+    def res(e):
+        nm = H.local_name(e)
+        k = 0
+        while nm in lets and k < 4:
+            e = lets[nm]
+            nm = H.local_name(e)
+            k += 1
+        return e
+
+    def is_one(e):
+        return H.tag(e) == "call" and H.call_args(e) and H.tag(H.call_args(e)[0]) == "lit" and H.call_args(e)[0][2] == 1
+
+    def is_x(e):
+        e = res(e)
+        if H.tag(e) != "binary" or e[1] != "+":
+            return False
+        a, b = e[2], e[3]
+        return ([H.local_name(a)] == n and is_one(b)) or ([H.local_name(b)] == n and is_one(a))
+
+    for a in H.nodes(body, "assign"):
+        c = H.local_name(a[1])
+        if not c:
+            continue
+        rhs = a[2]
+        if H.tag(rhs) == "mcall" and str(rhs[1]).endswith("::max") and rhs[3]:
+            r, x = rhs[2], rhs[3][0]
+            if (H.local_name(r) == c and is_x(x)) or (H.local_name(x) == c and is_x(r)):
+                return True
+        if H.tag(rhs) == "call" and str(H.callee(rhs) or "").endswith("::max") and len(H.call_args(rhs)) == 2:
+            r, x = H.call_args(rhs)
+            if (H.local_name(r) == c and is_x(x)) or (H.local_name(x) == c and is_x(r)):
+                return True
+    for i in H.nodes(body, "if"):
+        cond, then, els = i[1], i[2], (i[3] if len(i) > 3 else None)
+        if H.tag(cond) != "binary" or cond[1] not in (">", ">=", "<", "<=") or els is not None:
+            continue
+        big, small = (cond[2], cond[3]) if cond[1] in (">", ">=") else (cond[3], cond[2])
+        c = H.local_name(small)
+        if not c or not is_x(big):
+            continue
+        for a in H.nodes(then, "assign"):
+            if H.local_name(a[1]) == c and is_x(a[2]):
+                return True
+    return False
+
 def check_walker(prog, wname, corecall, positives):
     obs = []
     path = OBJ + "ObjValue::" + wname
@@ -138,16 +193,9 @@ def check_walker(prog, wname, corecall, positives):
             continue
         v = vs[0]
         if v == "Omit":
-            # skip = skip.max(new_skip + Saturating(1))
+            # skip = skip.max(new_skip + Saturating(1)), in any spelling that keeps the maximum
             n = [b[0] for b in H.pat_binds(arm[0])]
-            good = False
-            for a in H.nodes(arm[2], "assign"):
-                if H.local_name(a[1]) == "skip" and H.tag(a[2]) == "mcall" and a[2][1].endswith("::max") and H.local_name(a[2][2]) == "skip":
-                    arg = a[2][3][0] if a[2][3] else None
-                    if H.tag(arg) == "binary" and arg[1] == "+" and [H.local_name(arg[2])] == n:
-                        one = arg[3]
-                        if H.tag(one) == "call" and H.call_args(one) and H.tag(H.call_args(one)[0]) == "lit" and H.call_args(one)[0][2] == 1:
-                            good = True
+            good = omit_keeps_max(arm[2], n)
             if good:
                 obs.append(ok(RULE, "%s:omit" % wname, st, "Omit(n) => skip = skip.max(n + 1)"))
             else:
